@@ -566,7 +566,11 @@ func (k *Kernel) addProposedHeader(ctx context.Context, s *kState, ph tmconsensu
 				)
 			}
 
-			// Also update the committing view.
+			// Also update the committing view;
+			// its vote summary has to reflect the precommits we just merged in.
+			backfillVRV.VoteSummary.SetPrecommitPowers(
+				backfillVRV.ValidatorSet.Validators, backfillVRV.PrecommitProofs,
+			)
 			s.MarkCommittingViewUpdated()
 		}
 	}
